@@ -293,21 +293,10 @@ func (ip *idxProver) atomBounds(a ssa.Value) (lo, hi bound) {
 			}
 		}
 	case *ssa.Phi:
-		/* Range index: phi(-1, phi+1). */
-		isRange := len(x.Edges) >= 2
-		for _, e := range x.Edges {
-			if k, ok := constInt(e); ok && -1 == k {
-				continue
-			}
-			if b, ok := e.(*ssa.BinOp); ok && token.ADD == b.Op && b.X == ssa.Value(x) {
-				if k, ok := constInt(b.Y); ok && 1 == k {
-					continue
-				}
-			}
-			isRange = false
-		}
-		if isRange {
-			lo = bound{true, -1}
+		/* A counter: constants on the way in, itself plus a positive
+		constant on the way round (range indexes are phi(-1, phi+1)). */
+		if c0, _, ok := counterPhi(x); ok {
+			lo = bound{true, c0}
 		}
 	case *ssa.BinOp:
 		if bits, uns, ok := isUnsigned(x.Type()); ok && uns && bits < 63 {
@@ -424,8 +413,95 @@ func (ip *idxProver) proveGE(t lterm, f *ifacts) bool {
 		if b := ip.lower(d, f); b.ok && b.v >= 0 {
 			return true
 		}
+		/* A fact whose residue is known is at least that residue:
+		g ≥ 0 and g ≡ r (mod m), 0 ≤ r < m, give g − r ≥ 0. */
+		if r, ok := ip.residue(g, f); ok && r > 0 {
+			d := t.add(g, -1).add(tConst(r), 1)
+			if b := ip.lower(d, f); b.ok && b.v >= 0 {
+				return true
+			}
+		}
 	}
 	return false
+}
+
+// congOf: what is known about a modulo something: from a mask test on the
+// path, or because a is a counter stepped by a constant.
+func (ip *idxProver) congOf(a ssa.Value, f *ifacts) (m, r int64, ok bool) {
+	if c, have := f.cong[a]; have {
+		return c[0], c[1], true
+	}
+	if ph, isPhi := a.(*ssa.Phi); isPhi {
+		if c0, k, isCounter := counterPhi(ph); isCounter && k > 1 {
+			return k, ((c0 % k) + k) % k, true
+		}
+	}
+	return 0, 0, false
+}
+
+// residue: g modulo the common modulus of its atoms, when every atom has one.
+func (ip *idxProver) residue(g lterm, f *ifacts) (int64, bool) {
+	if 0 == len(g.co) {
+		return 0, false
+	}
+	var m int64
+	for a := range g.co {
+		am, _, ok := ip.congOf(a, f)
+		if !ok {
+			return 0, false
+		}
+		if 0 == m {
+			m = am
+		} else {
+			m = gcd64(m, am)
+		}
+	}
+	if m <= 1 {
+		return 0, false
+	}
+	r := g.c
+	for a, k := range g.co {
+		_, ar, _ := ip.congOf(a, f)
+		r += k * ar
+	}
+	return ((r % m) + m) % m, true
+}
+
+// counterPhi: ph is constant on every way in and itself plus one positive
+// constant step on every way round.  Returns the least initial value and the
+// step (the initial values being congruent modulo the step).
+func counterPhi(ph *ssa.Phi) (c0, step int64, ok bool) {
+	first := true
+	nStep := 0
+	for _, e := range ph.Edges {
+		if k, isC := constInt(e); isC {
+			if first || k < c0 {
+				c0 = k
+			}
+			first = false
+			continue
+		}
+		b, isB := e.(*ssa.BinOp)
+		if !isB || token.ADD != b.Op || b.X != ssa.Value(ph) {
+			return 0, 0, false
+		}
+		k, isC := constInt(b.Y)
+		if !isC || k <= 0 || (0 != nStep && k != step) {
+			return 0, 0, false
+		}
+		step = k
+		nStep++
+	}
+	if first || 0 == nStep {
+		return 0, 0, false
+	}
+	/* All initial values agree modulo the step. */
+	for _, e := range ph.Edges {
+		if k, isC := constInt(e); isC && 0 != (k-c0)%step {
+			return c0, 1, true
+		}
+	}
+	return c0, step, true
 }
 
 // contradictory: some atom has lo > hi, or a constant fact is negative.
